@@ -72,7 +72,8 @@ class StreamingDetector(ABC):
                     raise ValueError(
                         "Columns of new data must match with columns of prior data."
                     )
-            ary = X.values
+            # copy: .values may be a live view of the caller's dataframe
+            ary = np.array(X.values)
         else:
             ary = copy.copy(X)
             ary = np.array(ary)
@@ -256,7 +257,8 @@ class BatchDetector(ABC):
                     raise ValueError(
                         "Columns of new data must match with columns of prior data."
                     )
-            ary = X.values
+            # copy: .values may be a live view of the caller's dataframe
+            ary = np.array(X.values)
         else:
             ary = copy.copy(X)
             ary = np.array(ary)
